@@ -76,6 +76,13 @@ func init() {
 			c.Skip()
 			return
 		}
+		// how the request says it is a Connect GET: the connect=v1 query parameter, the
+		// Connect-Protocol-Version header, or both
+		getForm := c.Free("get-form", 3)
+		if getForm == 1 {
+			target = strings.Replace(target, "connect=v1&", "", 1)
+		}
+		c.Attr("~get-form", []string{"query", "header", "query+header"}[getForm])
 		run := func(spec *drive.ReqSpec) (*world.Backend, *world.Exchange) {
 			be := &world.Backend{Respond: func(b *world.Backend, r *http.Request) *world.Reply {
 				return world.EchoReply(b.Parsed, [][]byte{Enc(b.Parsed.Codec, MkMsg(`{"name":"ok"}`))}, "", nil)
@@ -95,6 +102,9 @@ func init() {
 			return be, ex
 		}
 		spec := &drive.ReqSpec{Method: httpMethod, Target: target, Header: http.Header{}, ContentLength: -1, NoBody: true}
+		if getForm > 0 {
+			spec.Header.Set("Connect-Protocol-Version", "1")
+		}
 		if httpMethod != "GET" && httpMethod != "HEAD" {
 			spec.NoBody, spec.Body = false, drive.NewBody(nil)
 		}
